@@ -1,0 +1,10 @@
+//go:build verif
+
+package message
+
+import "github.com/ThreeDotsLabs/watermill/internal/verifhook"
+
+// SetVerifHook installs the callback invoked at the verification hook points (build tag "verif" only).
+func SetVerifHook(f func(name string, args ...string)) {
+	verifhook.Set(f)
+}
